@@ -15,6 +15,7 @@ import os
 from . import hirq as H
 from .engine import VERIF
 from .pathcond import Analysis, OK, ERR
+from . import sym as S
 
 LEVEL = "proof"
 
@@ -62,132 +63,125 @@ def unwrap_inspect(e):
     return e, ok
 
 
+PLUMBING = set(S.PRESERVING) | set(S.TESTS) | set(S.IDENTITY_CALLS) | set(S.UNWRAPS)
+
+
 def check_dispatcher(ctx, F, cfg, proto, spec):
+    """per request variant, from the path summaries of the dispatcher (helpers expanded): exactly one handler call on self
+    with the request's own parameters, nothing else with an effect, the handler's Ok value wrapped in the oracle's response
+    variant and its Err returned unchanged"""
     trait = spec["trait"]
     fn = F.fn(trait + "::" + spec["dispatcher"])
     key0 = "C10|%s|" % proto
     if not ctx.oblige(key0 + "anchor", fn is not None, "anchor missing: %s::%s" % (trait, spec["dispatcher"]), cfg=cfg):
         return 0
-    out_ty = fn["output"]
-    body = H.strip_block(fn["body"])
-    if body.get("k") == "block" and not body.get("stmts"):
-        body = H.strip_block(body.get("expr", {}))
-    if not ctx.oblige(key0 + "shape", body.get("k") == "match" and H.local_name(body["scrut"]) in [n for p in fn["params"] for n, _ in H.pat_bindings(p)],
-                      "%s is no longer a single match on its request argument" % fn["path"], cfg=cfg, where=fn["sp"]):
+    names = [n for p in fn["params"] for n, _ in H.pat_bindings(p)]
+    if not ctx.oblige(key0 + "shape", len(names) == 2 and names[0] == "self", "%s no longer takes (&mut self, request)" % fn["path"], cfg=cfg, where=fn["sp"]):
         return 0
-    ctx.oblige(key0 + "no-loop", not any(x.get("k") == "loop" for x in H.walk(fn["body"])), "a loop was introduced in %s: a handler could run more than once" % fn["path"], cfg=cfg, where=fn["sp"])
+    me, req = ("param", "self"), ("param", names[1])
+    bad_closures = []
+
+    def is_effect(callee, args, node, st):
+        if callee == "<closure>":
+            return False
+        if callee in PLUMBING:
+            # a closure handed to inspect_err & co may only log
+            for a in args:
+                if a[0] == "closure":
+                    cn = sym.closures.get(a[1])
+                    if cn is not None and not log_only(cn[0]["body"]):
+                        bad_closures.append(node)
+                        return True
+            return False
+        if callee not in ("<assign>", "<indirect>") and is_log_node(node) and callee in LOG_SHAPE_CALLEES:
+            return False
+        return True
+
+    def inline(path, node):
+        f = sym.body_for(path)
+        return f is not None and (f.get("pv") or "user") == "user" and not path.startswith(trait + "::")
+
+    sym = S.Sym(F, fn, is_effect=is_effect, inline=inline)
+    try:
+        paths = sym.run(split_result=True)
+    except S.TooManyPaths:
+        ctx.violation(key0 + "paths", "%s has too many paths to enumerate" % fn["path"], cfg=cfg)
+        return 0
+    ctx.oblige(key0 + "no-loop", not any(p.loops for p in paths), "a loop was introduced in %s: a handler could run more than once" % fn["path"], cfg=cfg, where=fn["sp"])
     req_adt = F.adt(spec["request"])
     variants = [v["name"] for v in req_adt["variants"]]
-    covered = {}
-    for a in body["arms"]:
-        pats = a["pat"]["pats"] if a["pat"].get("k") == "or" else [a["pat"]]
-        for p in pats:
-            v = H.pat_ctor(p)
-            if v is None:
-                ctx.oblige(key0 + "catch-all", False, "catch-all arm in %s" % fn["path"], cfg=cfg, where=a["sp"])
-                continue
-            covered.setdefault(v.split("::")[-1], []).append((a, p))
-    A = Analysis(fn)
+    nfields = {v["name"]: len(v["fields"]) for v in req_adt["variants"]}
+    out_ty = fn["output"]
     n_arms = 0
     for name in variants:
         want = spec["arms"].get(name)
         key = key0 + name
-        arms = covered.get(name, [])
         if want is None:
             ctx.note("%s::%s has no row in spec/dispatch.json: not judged" % (spec["request"], name))
             continue
-        if not ctx.oblige(key + "|one-arm", len(arms) == 1 and "guard" not in arms[0][0], "%s::%s is handled by %d arms" % (spec["request"], name, len(arms)), cfg=cfg, where=fn["sp"]):
+        V = spec["request"] + "::" + name
+        sel, und = S.select(paths, {req: V})
+        where = fn["sp"]
+        if not ctx.oblige(key + "|one-arm", bool(sel), "%s::%s is not handled by %s" % (spec["request"], name, fn["path"]), cfg=cfg, where=where):
             continue
-        arm, pat = arms[0]
         n_arms += 1
-        binds = H.pat_bindings(pat)
-        where = arm["sp"]
-        # exactly one handler call
-        hc = handler_calls(arm["body"], trait)
-        other_traits = [x for x in H.walk(arm["body"]) if x.get("k") in ("call", "mcall") and ("Authenticator::" in (x.get("callee") or "")) and x not in hc]
-        if not ctx.oblige(key + "|one-handler", len(hc) == 1 and not other_traits,
-                          "%s arm invokes %d handler(s): %s" % (name, len(hc) + len(other_traits), [x.get("callee") for x in hc + other_traits]), cfg=cfg, where=where):
+        handlers = {}
+        others = []
+        for p in sel:
+            for e in p.effects:
+                if e.kind == "call" and (e.callee or "").startswith(trait + "::"):
+                    handlers.setdefault(e.term, e)
+                else:
+                    others.append(e)
+        hs = list(handlers.values())
+        per_path_ok = all(len([e for e in p.effects if (e.callee or "").startswith(trait + "::")]) == 1 for p in sel)
+        if not ctx.oblige(key + "|one-handler", len(hs) == 1 and per_path_ok and not any(p.done and p.done[0] == "panic" for p in sel),
+                          "%s invokes %d distinct handler call(s) (%s) / not exactly one per path" % (name, len(hs), [x.callee for x in hs]), cfg=cfg, where=where):
             continue
-        call = hc[0]
-        ctx.oblige(key + "|method", call.get("callee") == trait + "::" + want["method"],
-                   "%s is dispatched to %s, not %s::%s" % (name, call.get("callee"), trait, want["method"]), cfg=cfg, where=H.line(call))
-        args = H.call_args(call)
+        h = hs[0]
+        ctx.oblige(key + "|method", h.callee == trait + "::" + want["method"], "%s is dispatched to %s, not %s::%s" % (name, h.callee, trait, want["method"]), cfg=cfg, where=H.line(h.node))
+        args = list(h.args)
         if want.get("static"):
             recv_ok, rest = True, args
         else:
-            recv_ok = len(args) >= 1 and H.local_name(args[0]) == "self"
+            recv_ok = len(args) >= 1 and args[0] == me
             rest = args[1:]
-        ctx.oblige(key + "|receiver", recv_ok, "%s handler is not invoked on self" % name, cfg=cfg, where=H.line(call))
-        bind_ids = [i for _, i in binds]
-        args_ok = len(rest) == want["args"] == len(bind_ids)
-        if args_ok and rest:
-            a0 = rest[0]
-            if want.get("arg_deref"):
-                s0 = H.strip_block(a0)
-                args_ok = s0.get("k") == "unary" and s0["op"] == "deref" and H.local_id(s0["e"]) == bind_ids[0]
-            else:
-                s0 = H.strip_block(a0)
-                # the binding itself (a reference into the request), not a copy or a re-borrow of something else
-                args_ok = s0.get("k") == "path" and H.local_id(s0) == bind_ids[0]
-        ctx.oblige(key + "|args", args_ok, "%s handler does not receive exactly the request's parameters" % name, cfg=cfg, where=H.line(call))
-        # everything else in the arm is a logging no-op / the allowed plumbing
-        bad = []
-        for x in H.walk(arm["body"]):
-            k = x.get("k")
-            if k in ("call", "mcall"):
-                if x is call or (k == "call" and "ctor" in x):
-                    continue
-                if x.get("callee") == INSPECT:
-                    continue
-                if is_log_node(x) and x.get("callee") in LOG_SHAPE_CALLEES:
-                    continue
-                bad.append(x.get("callee") or "?")
-            elif k in ("assign", "assignop", "loop", "index", "asm", "ret", "break"):
-                bad.append(k)
-        ctx.oblige(key + "|no-other-effect", not bad, "%s arm has additional effects: %s" % (name, bad), cfg=cfg, where=where)
-        # result sites of this arm
-        sites = [s for s in A.sites if any(c.kind == "match" and c.pat is arm["pat"] for c in s.conds)]
-        tries = [s for s in A.tries if any(c.kind == "match" and c.pat is arm["pat"] for c in s.conds)]
-        if not ctx.oblige(key + "|one-result", len(sites) == 1 and sites[0].wrappers == [OK] and sites[0].kind == "tail",
-                          "%s arm has %d result sites / is not Ok(..)" % (name, len(sites)), cfg=cfg, where=where):
+        ctx.oblige(key + "|receiver", recv_ok, "%s handler is not invoked on self" % name, cfg=cfg, where=H.line(h.node))
+        binds = [("proj", req, V, i) for i in range(nfields.get(name, 0))]
+        ctx.oblige(key + "|args", len(rest) == want["args"] and rest == binds, "%s handler does not receive exactly the request's parameters (receives %s)" % (name, [S.show(a) for a in rest]), cfg=cfg, where=H.line(h.node))
+        ctx.oblige(key + "|no-other-effect", not others and not bad_closures, "%s arm has additional effects: %s" % (name, sorted({S.short_fn(e.callee) for e in others} | {"closure that does more than log" for _ in bad_closures})), cfg=cfg, where=where)
+        ctx.oblige(key + "|handler-only-decides", all(a[1] in (req, h.term) and a[0] in ("is", "isnot") for a in und), "%s: the outcome depends on more than the handler's result: %s" % (name, [S.show_atom(a) for a in und if a[1] not in (req, h.term)][:2]), cfg=cfg, where=where, nontrivial=False)
+        resp = spec["response"] + "::" + want["response"]
+        oks = [p for p in sel if p.result is not None and p.result[0] == "ctor" and p.result[1] == S.OK]
+        errs = [p for p in sel if p.result is not None and p.result[0] == "ctor" and p.result[1] == S.ERR]
+        if not ctx.oblige(key + "|one-result", len(oks) == 1 and len(oks) + len(errs) == len(sel), "%s arm has %d Ok results among %d paths" % (name, len(oks), len(sel)), cfg=cfg, where=where):
             continue
-        node = H.strip_block(sites[0].node)
-        ctx.oblige(key + "|response", H.ctor(node) == spec["response"] + "::" + want["response"],
-                   "%s answers with %s, not %s::%s" % (name, H.ctor(node), spec["response"], want["response"]), cfg=cfg, where=H.line(node))
-        # error / value plumbing
+        val = oks[0].result[2][0]
+        ctx.oblige(key + "|response", val[0] == "ctor" and val[1] == resp, "%s answers with %s, not %s" % (name, S.show(val)[:80], resp), cfg=cfg, where=where)
         if want["fallible"]:
-            good = len(tries) == 1
-            msg = "%s: handler result must leave through exactly one `?`" % name
-            if good:
-                inner, clos_ok = unwrap_inspect(tries[0].node)
-                if inner is not call:
-                    good, msg = False, "%s: the `?` is not applied to the handler's own result" % name
-                elif not clos_ok:
-                    good, msg = False, "%s: inspect_err closure does more than log" % name
-                else:
-                    ety = (tries[0].node.get("ty") or "")
-                    want_err = out_ty[out_ty.rfind(", ") + 2:-1] if out_ty.startswith("core::result::Result<") else None
-                    if not (ety.startswith("core::result::Result<") and want_err and ety.endswith(", " + want_err + ">")):
-                        good, msg = False, "%s: handler error type %s is converted on the way out (%s)" % (name, ety, out_ty)
+            good = len(errs) == 1 and sym.lookup(errs[0], h.term) == S.ERR and sym.lookup(oks[0], h.term) == S.OK
+            msg = "%s: the handler's failure is not the only way to fail / its success not the only way to succeed" % name
+            if good and errs[0].result != ("ctor", S.ERR, (sym.proj(h.term, S.ERR, 0),)):
+                good, msg = False, "%s: the handler's error is changed on the way out (returns %s)" % (name, S.show(errs[0].result)[:100])
+            want_err = out_ty[out_ty.rfind(", ") + 2:-1] if out_ty.startswith("core::result::Result<") else None
+            hty = h.node.get("ty") or ""
+            if good and not (hty.startswith("core::result::Result<") and want_err and hty.endswith(", " + want_err + ">")):
+                good, msg = False, "%s: handler error type %s is converted on the way out (%s)" % (name, hty, out_ty)
             ctx.oblige(key + "|error-path", good, msg, cfg=cfg, where=where)
             if want["carries"]:
-                carried = node.get("k") == "call" and len(node["args"]) == 1 and H.strip_block(node["args"][0]).get("k") == "try" \
-                    and good and H.strip_block(node["args"][0])["e"] is tries[0].node
-                ctx.oblige(key + "|carries", carried, "%s response does not carry the handler's result" % name, cfg=cfg, where=H.line(node))
+                ctx.oblige(key + "|carries", val[0] == "ctor" and val[2] == (sym.proj(h.term, S.OK, 0),), "%s response does not carry the handler's result (carries %s)" % (name, S.show(val)[:80]), cfg=cfg, where=where)
             else:
-                ctx.oblige(key + "|unit", node.get("k") == "path" and good and tries[0].seq < sites[0].seq,
-                           "%s must answer the unit response after its handler succeeded" % name, cfg=cfg, where=H.line(node))
+                ctx.oblige(key + "|unit", val == ("ctor", resp, ()), "%s must answer the unit response after its handler succeeded" % name, cfg=cfg, where=where)
         else:
-            ctx.oblige(key + "|infallible", not tries and not any(x.get("k") == "ret" for x in H.walk(arm["body"])),
-                       "%s must not fail, but its arm has an error exit" % name, cfg=cfg, where=where)
-            carried = node.get("k") == "call" and len(node["args"]) == 1 and H.strip_block(node["args"][0]) is call
-            ctx.oblige(key + "|carries", carried, "%s response does not carry the handler's result" % name, cfg=cfg, where=H.line(node))
+            ctx.oblige(key + "|infallible", not errs and len(sel) == 1, "%s must not fail, but it has an error exit" % name, cfg=cfg, where=where)
+            ctx.oblige(key + "|carries", val[0] == "ctor" and val[2] == (h.term,), "%s response does not carry the handler's result" % name, cfg=cfg, where=where)
             tm = F.trait_methods.get(trait + "::" + want["method"])
             ctx.oblige(key + "|signature", tm is not None and not tm["output"].startswith("core::result::Result<"),
                        "%s::%s is declared fallible" % (trait, want["method"]), cfg=cfg)
-        ctx.sample({"cfg": cfg, "proto": proto, "request": name, "handler": call.get("callee"), "response": H.ctor(node), "via": [A.desc(t.node)[:120] for t in tries]}, limit=30)
+        ctx.sample({"cfg": cfg, "proto": proto, "request": name, "handler": h.callee, "paths": S.summarize(sel)}, limit=30)
     for name in spec["arms"]:
         ctx.oblige(key0 + name + "|variant", name in variants, "%s::%s no longer exists" % (spec["request"], name), cfg=cfg)
+    ctx.extra.setdefault("helpers_expanded", {}).setdefault(cfg, {})[proto] = sorted(sym.inlined)
     return n_arms
 
 
@@ -208,20 +202,18 @@ def run(ctx):
         # default large_blobs
         lb = F.fn("ctap2::Authenticator::large_blobs")
         if ctx.oblige("C10|default|large_blobs|anchor", lb is not None, "anchor missing: default Authenticator::large_blobs", cfg=cfg):
-            A = Analysis(lb)
             want = spec["ctap2"]["defaults"]["large_blobs"]
-            good = len(A.sites) == 1 and A.sites[0].wrappers == [ERR] and H.ctor(H.strip_block(A.sites[0].node)) == want["value"] and not A.tries
-            calls = [x for x in H.walk(lb["body"]) if x.get("k") in ("call", "mcall") and "ctor" not in x]
-            ctx.oblige("C10|default|large_blobs", good and not calls, "an authenticator without large blobs no longer answers Err(InvalidCommand) without side effect", cfg=cfg, where=lb["sp"])
+            sy = S.Sym(F, lb, is_effect=lambda callee, args, node, st: True)
+            ps = sy.run()
+            good = len(ps) == 1 and ps[0].result == ("ctor", S.ERR, (("ctor", want["value"], ()),)) and not ps[0].effects and not ps[0].atoms
+            ctx.oblige("C10|default|large_blobs", good, "an authenticator without large blobs no longer answers Err(InvalidCommand) without side effect", cfg=cfg, where=lb["sp"])
         # default version()
         ver = F.fn("ctap1::Authenticator::version")
         if ctx.oblige("C10|default|version|anchor", ver is not None, "anchor missing: default Authenticator::version", cfg=cfg):
-            b = H.strip_block(ver["body"])
+            ps = S.Sym(F, ver, is_effect=lambda callee, args, node, st: True).run()
             val = None
-            if b.get("k") == "unary" and b["op"] == "deref":
-                val = H.lit(b["e"])
-            elif b.get("k") == "array":
-                val = [H.lit(x) for x in b["elems"]]
+            if len(ps) == 1 and not ps[0].effects and ps[0].result is not None and ps[0].result[0] == "array" and all(x[0] == "lit" for x in ps[0].result[1]):
+                val = [x[1] for x in ps[0].result[1]]
             ctx.oblige("C10|default|version", val == list(spec["ctap1"]["defaults"]["version"]["bytes"].encode()),
                        "default U2F version string is %r" % (val,), cfg=cfg, where=ver["sp"])
         # blanket Rpc impls
@@ -233,11 +225,11 @@ def run(ctx):
                 tr = im.get("trait_ref", "")
                 proto = "ctap2" if "ctap2::Request" in tr else "ctap1" if "ctap1::Request" in tr else None
                 want = {"ctap2": "ctap2::Authenticator::call_ctap2", "ctap1": "ctap1::Authenticator::call_ctap1"}.get(proto)
-                b = H.strip_block(f["body"])
                 pn = [n for p in f["params"] for n, _ in H.pat_bindings(p)]
-                good = b.get("k") in ("mcall", "call") and b.get("callee") == want
+                ps = S.Sym(F, f, is_effect=lambda callee, args, node, st: True, inline=lambda path, node: False).run()
+                good = len(ps) == 1 and len(ps[0].effects) == 1 and not ps[0].atoms and len(pn) == 2
                 if good:
-                    args = H.call_args(b)
-                    good = len(args) == 2 and H.local_name(args[0]) == "self" and H.strip_block(args[1]).get("k") == "path" and H.local_name(args[1]) in pn and H.local_name(args[1]) != "self"
+                    e = ps[0].effects[0]
+                    good = e.callee == want and tuple(e.args) == (("param", "self"), ("param", pn[1])) and ps[0].result == e.term
                 ctx.oblige("C10|rpc|%s" % proto, good, "the generic Rpc::call entry point for %s is not a plain delegation to %s" % (proto, want), cfg=cfg, where=f["sp"])
         ctx.floor("blanket Rpc impls", n_rpc, 2, cfg=cfg)
